@@ -18,7 +18,7 @@ class Undecided(Exception):
 # --------------------------------------------------------------------------- rules (reported)
 RULES = [
     "drop: doc comments (/// //! /** */), plain comments",
-    "reduce: #[derive(..)] to its subset of {Clone+Copy, Debug}; drop: attributes #[cfg_attr(..)], #[inline..], #[must_use..], #[allow(..)], #[doc..], #[default], #[non_exhaustive], #[repr(..)] on extracted items",
+    "reduce: #[derive(..)] to its subset of {Clone+Copy, Debug, PartialEq, Eq}; drop: attributes #[cfg_attr(..)], #[inline..], #[must_use..], #[allow(..)], #[doc..], #[default], #[non_exhaustive], #[repr(..)] on extracted items",
     "drop: statements that are exactly a log::<level>!(...); macro call",
     "rewrite: assert!/debug_assert!(c, ..) -> Verus obligation assert(c); (debug_)assert_eq!/ne!(a, b) -> assert((a) ==/!= (b)): runtime assertions become proof obligations in every build profile",
     "rename: uN::from_be_bytes( -> uN_from_be_bytes(  (shim with assumed big-endian semantics)",
@@ -183,7 +183,7 @@ def drop_attrs(text):
         k = match_brace(text, text.index('[', m.start()), '[', ']')
         attr = text[m.start():k + 1]
         if attr.startswith('#[derive'):
-            keepd = [d for d in ('Clone', 'Copy', 'Debug') if re.search(r'\b' + d + r'\b', attr)]
+            keepd = [d for d in ('Clone', 'Copy', 'Debug', 'PartialEq', 'Eq') if re.search(r'\b' + d + r'\b', attr)]
             if 'Clone' in keepd and 'Copy' not in keepd:
                 keepd.remove('Clone')
             if keepd:
@@ -386,12 +386,13 @@ def rewrite_asserts(body):
         k = match_brace(body, m.end() - 1, '(', ')')
         args = split_top_commas(body[m.end():k])
         kind = m.group(1)
+        # operands are evaluated in exec mode first (they may call exec functions), then compared in spec mode
         if kind.endswith('_eq'):
-            rep = f"assert(({args[0].strip()}) == ({args[1].strip()}))"
+            rep = f"{{ let lhs__ = {args[0].strip()}; let rhs__ = {args[1].strip()}; assert(lhs__ == rhs__); }}"
         elif kind.endswith('_ne'):
-            rep = f"assert(({args[0].strip()}) != ({args[1].strip()}))"
+            rep = f"{{ let lhs__ = {args[0].strip()}; let rhs__ = {args[1].strip()}; assert(lhs__ != rhs__); }}"
         else:
-            rep = f"assert({args[0].strip()})"
+            rep = f"{{ let cond__: bool = {args[0].strip()}; assert(cond__); }}"
         out.append(body[i:m.start()] + rep)
         i = k + 1
     return ''.join(out)
@@ -492,7 +493,7 @@ def build_unit(unit, canary=False):
     renames = [(p, r) for p, r in unit.get('renames', [])]
     parts = ["// GENERATED by /verif/verus/extract.py from " + REPO + " -- do not edit\n",
              "#![allow(unused_imports, unused_variables, dead_code, unused_mut, unused_parens, non_snake_case, unreachable_code)]\n",
-             "use vstd::prelude::*;\nuse vstd::std_specs::ops::*;\nuse vstd::std_specs::convert::*;\nuse core::ops::{Add, Sub, Mul, Div, Rem, Neg};\n",
+             "use vstd::prelude::*;\nuse vstd::std_specs::ops::*;\nuse vstd::std_specs::convert::*;\nuse core::ops::{Add, Sub, Mul, Div, Rem, Neg, AddAssign, SubAssign};\n",
              unit.get('uses', ''),
              "verus! {\n"]
     for sh in unit.get('shims', []):
